@@ -575,6 +575,7 @@ func main() {
 	if o.Only < 0 {
 		typedRows(o, g)
 	}
+	handshakeView(o)
 
 	o.Finish("From GocqlV Require Import Lib.Base C04.Model C04.Spec C04.Corr.", "C04.Corr.case", "C04.Corr.run")
 }
